@@ -38,7 +38,7 @@ InstA == <<At(363, Noon), At(364, Noon), At(366, Noon)>>
 (* holder; one price                                                       *)
 SymB  == {Sy("in", "buy", a, 0, 2, 11, 0) : a \in 2..3}
          \cup {[Sy("in", "buy", 2, 0, 2, 11, 0) EXCEPT !.ffee = 1]}
-         \cup {Sy("in", "mining", 1, 0, 2, 21, 0)}
+         \cup {Sy("in", "mining", 1, 0, 2, 21, 0), [Sy("in", "staking", 1, 0, 2, 11, 0) EXCEPT !.ffee = 1]}
          \cup {Sy("out", "sell", 1, f, 2, 11, 0) : f \in 0..1}
          \cup {Sy("out", "fee", 0, 1, 2, 11, 0), Sy("out", "sell", All, 0, 2, 11, 0)}
          \cup {Sy("intra", "move", 2, f, 2, 11, 21) : f \in 0..1}
@@ -89,6 +89,8 @@ SymV  == {Sy("in", "buy", 2, 0, 2, 11, 0),
           [Sy("in", "buy", 3, 0, 2, 11, 0) EXCEPT !.vin = 5, !.vwf = 7],
           [Sy("in", "buy", 2, 0, 2, 11, 0) EXCEPT !.ffee = 1, !.vwf = 6],
           [Sy("in", "income", 2, 0, 2, 11, 0) EXCEPT !.vin = 3],
+          [Sy("in", "interest", 2, 0, 2, 11, 0) EXCEPT !.ffee = 1],         \* income received against a fee
+          [Sy("in", "mining", 2, 0, 2, 11, 0) EXCEPT !.vin = 3, !.vwf = 5],
           Sy("out", "sell", 1, 1, 3, 11, 0),
           [Sy("out", "sell", 3, 0, 3, 11, 0) EXCEPT !.vout = 10],
           [Sy("out", "sell", 1, 1, 3, 11, 0) EXCEPT !.vout = 4, !.vfee = 2],
